@@ -22,3 +22,21 @@ pub fn set_inline_tasks(on: bool) {
 pub fn inline_tasks() -> bool {
     INLINE_TASKS.load(Ordering::SeqCst)
 }
+
+static INLINE_SINGLE_WORKER: AtomicBool = AtomicBool::new(false);
+static INLINE_WORKER: std::sync::LazyLock<parking_lot::Mutex<()>> =
+    std::sync::LazyLock::new(|| parking_lot::Mutex::new(()));
+
+/// With inline tasks on, additionally makes the inline execution hold one process-wide lock for
+/// the duration of the task: the stand-in for a worker pool with a single worker (a task that
+/// waits for something another queued task would release then blocks everybody, as it would
+/// with `pool_size = 1`). Off by default; nothing in the engine sets it.
+pub fn set_inline_single_worker(on: bool) {
+    INLINE_SINGLE_WORKER.store(on, Ordering::SeqCst);
+}
+
+pub fn inline_worker() -> Option<parking_lot::MutexGuard<'static, ()>> {
+    INLINE_SINGLE_WORKER
+        .load(Ordering::SeqCst)
+        .then(|| INLINE_WORKER.lock())
+}
